@@ -178,6 +178,10 @@ def real_thread_stress(ctx, res):
             t.join()
         time.sleep(1.0)
         srv.close()
+        try:
+            b.shutdown(socket.SHUT_RDWR)      # close() alone does not wake a thread blocked in recv on Linux
+        except OSError:
+            pass
         b.close()
         lines = bytes(got).split(b'\r\n')
         seqs = {}
@@ -186,7 +190,8 @@ def real_thread_stress(ctx, res):
         for l in lines:
             if b'|UD3|' in l:
                 count += 1
-                tag = l.rsplit(b'|', 1)[1].split(b':', 1)[0].decode()
+                import urllib.parse
+                tag = urllib.parse.unquote_plus(l.rsplit(b'|', 1)[1].decode('ascii')).split(':', 1)[0]
                 k, j = tag[1:].split('-')
                 if seqs.get(k, -1) + 1 != int(j):
                     bad = 'thread %s: update %s written after %s' % (k, j, seqs.get(k, -1))
@@ -200,6 +205,17 @@ def real_thread_stress(ctx, res):
                                           'key': {'kind': 'real_thread_stress'}})
     finally:
         server.create_socket_and_connect = saved
+        # whatever happened above, the library's (non-daemon) reader thread must see the connection end,
+        # or the interpreter cannot exit
+        for sk in (b, a):
+            try:
+                sk.shutdown(socket.SHUT_RDWR)
+            except OSError:
+                pass
+            try:
+                sk.close()
+            except OSError:
+                pass
 
 
 def minimise(ctx, v):
